@@ -474,7 +474,7 @@ Proof.
   { intros id Hid. destruct (lo_objs _ _ L id Hid) as (o & Ho & _). eauto. }
   cbn [app] in Hp1.
   assert (Hoffs' : forall id, In id ord -> mfind id offs = Some (posof objs ord id)).
-  { intros id Hid. rewrite (Hoffs id Hid). f_equal. lia. }
+  { intros id Hid. rewrite (Hoffs id Hid). f_equal. }
   destruct (pass2_spec objs offs ord 0 []) as (Bs & Hp2 & Hpat); try reflexivity; try lia.
   { exact (ord_ok_of_layout objs offs ord L Hoffs' [] ord eq_refl). }
   cbn [app] in Hp2.
@@ -538,3 +538,113 @@ Proof.
       rewrite Hs. apply in_or_app. right. left. reflexivity. }
   intros id Hid. apply (Hback ord []); auto.
 Qed.
+
+(* ------------------------------------------------------------------------------------------ *)
+(* the gate: has_overflows = false gives the no-overflow hypothesis of serialize_sound         *)
+
+Lemma overflow_links_false nodes parent : forall ls, overflow_links nodes parent ls = Some false ->
+  forall l, In l ls -> exists c, mfind (l_obj l) nodes = Some c /\
+                                 0 <= n_pos c - n_pos parent <= max_value (l_width l).
+Proof.
+  induction ls as [|x r IH]; intros H l Hin; [destruct Hin|].
+  cbn [overflow_links] in H.
+  destruct (mfind (l_obj x) nodes) as [c|] eqn:Ec; cbn [obind] in H; [|discriminate].
+  unfold chk_u, in_u in H.
+  destruct ((0 <=? n_pos c - n_pos parent) && (n_pos c - n_pos parent <? 2 ^ 32)) eqn:E1; cbn [obind] in H; [|discriminate].
+  destruct (max_value (l_width x) <? n_pos c - n_pos parent) eqn:E2; [discriminate|].
+  destruct Hin as [<-|Hin].
+  - exists c. split; [exact Ec|]. lia.
+  - apply IH; assumption.
+Qed.
+
+Lemma overflow_objs_false nodes : forall objs, overflow_objs nodes objs = Some false ->
+  forall pid o, In (pid, o) objs -> exists p, mfind pid nodes = Some p /\
+    forall l, In l (o_links o) -> exists c, mfind (l_obj l) nodes = Some c /\
+                                  0 <= n_pos c - n_pos p <= max_value (l_width l).
+Proof.
+  induction objs as [|[k o0] r IH]; intros H pid o Hin; [destruct Hin|].
+  cbn [overflow_objs] in H.
+  destruct (mfind k nodes) as [p|] eqn:Ep; cbn [obind] in H; [|discriminate].
+  destruct (overflow_links nodes p (o_links o0)) as [b|] eqn:El; cbn [obind] in H; [|discriminate].
+  destruct b; [discriminate|].
+  destruct Hin as [E|Hin].
+  - inversion E; subst. exists p. split; [exact Ep|]. apply overflow_links_false. exact El.
+  - apply IH; assumption.
+Qed.
+
+(* positions recorded in the nodes agree with the prefix sums of the order *)
+Definition positions_match (g : graph) : Prop :=
+  forall id, In id (g_order g) -> exists nd, mfind id (g_nodes g) = Some nd /\
+                                             n_pos nd = posof (g_objs g) (g_order g) id.
+
+Theorem serialize_sound_graph g :
+  g_order g <> [] -> NoDup (g_order g) ->
+  (forall id, In id (g_order g) -> exists o, mfind id (g_objs g) = Some o /\ obj_wf o) ->
+  (forall id o l, In id (g_order g) -> mfind id (g_objs g) = Some o -> In l (o_links o) -> In (l_obj l) (g_order g)) ->
+  total_size (g_objs g) (g_order g) < 2 ^ 32 ->
+  (forall id o l, In id (g_order g) -> mfind id (g_objs g) = Some o -> In l (o_links o) ->
+      precedes (g_order g) id (l_obj l)) ->
+  (forall id o l, In id (g_order g) -> mfind id (g_objs g) = Some o -> In l (o_links o) -> l_adj l = 0) ->
+  positions_match g ->
+  has_overflows g = Some false ->
+  exists out, serialize g = Some out /\ blen out = total_size (g_objs g) (g_order g) /\
+    Resolves (g_objs g) out 0 (hd 0 (g_order g)) /\
+    (forall id, In id (g_order g) -> Resolves (g_objs g) out (posof (g_objs g) (g_order g) id) id) /\
+    (forall id o l, In id (g_order g) -> mfind id (g_objs g) = Some o -> In l (o_links o) ->
+        from_be (slice out (posof (g_objs g) (g_order g) id + l_pos l) (l_width l))
+          = posof (g_objs g) (g_order g) (l_obj l) - posof (g_objs g) (g_order g) id /\
+        from_be (slice out (posof (g_objs g) (g_order g) id + l_pos l) (l_width l)) < 2 ^ (8 * l_width l)).
+Proof.
+  intros Hne Hnd Hobjs Hclosed Hsize Htopo Hadj Hpos Hov.
+  assert (L : layout_ok (g_objs g) (g_order g)).
+  { constructor; auto.
+    intros id o l Hid Ho Hl. rewrite (Hadj id o l Hid Ho Hl).
+    unfold has_overflows in Hov.
+    destruct (overflow_objs_false _ _ Hov id o (mfind_In _ _ _ Ho)) as (p & Hp & Hlinks).
+    destruct (Hlinks l Hl) as (c & Hc & Hrange).
+    destruct (Hpos id Hid) as (p' & Hp' & Hpp). rewrite Hp in Hp'. inversion Hp'; subst p'.
+    destruct (Hpos (l_obj l) (Hclosed id o l Hid Ho Hl)) as (c' & Hc' & Hcp). rewrite Hc in Hc'. inversion Hc'; subst c'.
+    lia. }
+  destruct (serialize_sound_lemma _ _ L) as (out & Hser & Hlen & Hres & Hvals).
+  exists out. split; [exact Hser|]. split; [exact Hlen|]. split; [|split; [exact Hres|]].
+  - destruct (g_order g) as [|x r] eqn:E; [contradiction|]. cbn [hd].
+    specialize (Hres x (or_introl eq_refl)). cbn [posof] in Hres. rewrite Z.eqb_refl in Hres. exact Hres.
+  - intros id o l Hid Ho Hl. destruct (Hvals id o l Hid Ho Hl) as (Hv & Hb).
+    rewrite (Hadj id o l Hid Ho Hl) in Hv. split; [rewrite Hv; lia|exact Hb].
+Qed.
+
+(* ------------------------------------------------------------------------------------------ *)
+(* pack_objects / dump_table: bytes only after a successful gate                               *)
+
+Lemma pack_packed_no_overflow g g' : pack_objects g = Some (g', Packed) -> has_overflows g' = Some false.
+Proof.
+  unfold pack_objects, basic_sort. intros H.
+  destruct (sort_kahn g) as [g1|]; cbn [obind] in H; [|discriminate].
+  destruct (has_overflows g1) as [ov|] eqn:E1; cbn [obind] in H; [|discriminate].
+  destruct ov; cbn [negb] in H.
+  - destruct (sort_shortest_distance g1) as [g2|]; cbn [obind] in H; [|discriminate].
+    destruct (has_overflows g2) as [ov2|] eqn:E2; cbn [obind] in H; [|discriminate].
+    destruct ov2; cbn [negb] in H.
+    + destruct (has_wide_link (g_objs g2)); [discriminate|].
+      destruct (sort_shortest_distance g2) as [g3|]; cbn [obind] in H; [|discriminate].
+      destruct (has_overflows g3) as [ov3|] eqn:E3; cbn [obind] in H; [|discriminate].
+      destruct ov3; cbn [negb] in H; [discriminate|]. inversion H; subst. exact E3.
+    + inversion H; subst. exact E2.
+  - inversion H; subst. exact E1.
+Qed.
+
+Lemma dump_graph_bytes objs root out : dump_graph objs root = RBytes out ->
+  exists g g', from_objects objs root = Some g /\ pack_objects g = Some (g', Packed) /\
+               has_overflows g' = Some false /\ serialize g' = Some out.
+Proof.
+  unfold dump_graph. intros H.
+  destruct (from_objects objs root) as [g|]; [|discriminate].
+  destruct (pack_objects g) as [[g' r]|] eqn:Ep; [|discriminate].
+  destruct r; try discriminate.
+  destruct (serialize g') as [o|] eqn:Es; [|discriminate].
+  inversion H; subst. exists g, g'. repeat split; auto. apply pack_packed_no_overflow with g. exact Ep.
+Qed.
+
+Lemma pack_false_no_bytes objs root g g' : from_objects objs root = Some g ->
+  pack_objects g = Some (g', Failed) -> dump_graph objs root = RFailed.
+Proof. intros H1 H2. unfold dump_graph. rewrite H1, H2. reflexivity. Qed.
